@@ -539,22 +539,19 @@ theorem struct_points {x : Serde.Ext} {vx : Validate.Ext} {d : Doc} {σ : Space}
               obtain ⟨vm, hvm⟩ := foldFields_flat_ok fields _ fs rest hkeep hfold' e hemem.1 (by simpa using hemem.2)
               cases fd with
               | zero => simp [deFlat] at hvm
-              | succ fd' =>
-                simp only [deFlat, hge] at hvm
-                cases fd' with
-                | zero => simp [de] at hvm
-                | succ fd'' =>
-                  simp only [de, hge] at hvm
-                  split at hvm
-                  · rename_i es hes
-                    obtain ⟨b, hb⟩ := C05.mapM'_mem hes (key, w) hbuf
-                    simp only at hb
-                    cases hvw : de x σ fd'' vt w with
-                    | ok vv => exact hrec sa vt w vv fd'' hsa hvw
-                    | error e' =>
-                      rw [hvw] at hb
-                      split at hb <;> simp_all
-                  · simp at hvm
+              | succ fd'' =>
+                rw [deFlat_map_eq x σ hge] at hvm
+                simp only [de, hge] at hvm
+                split at hvm
+                · rename_i es hes
+                  obtain ⟨b, hb⟩ := C05.mapM'_mem hes (key, w) hbuf
+                  simp only at hb
+                  cases hvw : de x σ fd'' vt w with
+                  | ok vv => exact hrec sa vt w vv fd'' hsa hvw
+                  | error e' =>
+                    rw [hvw] at hb
+                    split at hb <;> simp_all
+                · simp at hvm
           · simp at hk
         · simp at haddl
       · simp at haddl
